@@ -14,11 +14,9 @@ C01); each rule is per task execution, hence holds under every schedule:
  R6 source tasks: the batch size put in the task is the amount added to the launched counter;
  R7 external sources: the remaining-counter is decremented after the task's packets are stored, the flush is
     created once (remaining == 0 and an atomic once-flag), every flush / source task holds its block's lock;
- R9 the per-source split of the request adds up to the request (X / n per copy, +1 for the first X % n, running sum
-    advanced by X, remainder handed out one by one);
  R8 DistributedPhotonSource::get_photon_batch updates its counter under the source's lock, bounded by the total.
-Not decided: schedule-dependent quiescence detection (the run flag is a plain bool); that the weights of the sources
-sum to at most one (data), without which the remainder of R9 would wrap.
+Not decided: schedule-dependent quiescence detection (the run flag is a plain bool) and the arithmetic of
+the per-source split.
 """
 import sympy as sp
 
@@ -800,8 +798,8 @@ def run(chk, prog):
         if short == "ionization":
             n["R7"] += rule_R7(chk, prog.library(), drv)
     n["R8"] += rule_R8(chk, prog.library())
-    n["R9"] = rule_R9(chk, prog.library())
-    chk.floor("R9", n["R9"], 3)
+    # R9 (the per-source split adds up to the request) was built and withdrawn: it matched the shape of the constructor
+    # and fired on a behaviour-preserving rewrite (refactorings/g31/patch_06); see DESIGN.md section 8.
     chk.extra["obligations_per_rule"] = n
     chk.floor("R1", n["R1"], 12)
     chk.floor("R2", n["R2"], 8)
